@@ -79,6 +79,9 @@ pub struct ExecCfg {
     pub keep_trace: bool,
     /// sleep-set partial-order reduction (set by the explorer for unbounded passes only)
     pub por: bool,
+    /// a panic that escapes a task spawned by the library ends that task only (what a tokio runtime does);
+    /// by default such a panic abandons the execution and is reported
+    pub tolerate_lib_panics: bool,
 }
 
 impl Default for ExecCfg {
@@ -96,6 +99,7 @@ impl Default for ExecCfg {
             fresh_thread: true,
             keep_trace: true,
             por: false,
+            tolerate_lib_panics: false,
         }
     }
 }
@@ -707,7 +711,24 @@ impl Future for Wrapper {
                 *w = Some(cx.waker().clone());
             }
         }
-        match this.inner.as_mut().unwrap().as_mut().poll(cx) {
+        let tolerate = ordinal != usize::MAX && with_exec(|e| e.cfg.tolerate_lib_panics).unwrap_or(false);
+        let polled = if tolerate {
+            let inner = this.inner.as_mut().unwrap();
+            match std::panic::catch_unwind(std::panic::AssertUnwindSafe(|| inner.as_mut().poll(cx))) {
+                Ok(p) => p,
+                Err(payload) => {
+                    let engine_own = payload.downcast_ref::<&'static str>().is_some_and(|m| *m == PANIC_DIVERGENCE || *m == PANIC_LIVENESS);
+                    if engine_own {
+                        std::panic::resume_unwind(payload);
+                    }
+                    log(format!("TASK-PANIC ordinal={} name={:?}: the panic ends this task only", this.ordinal, this.name));
+                    Poll::Ready(())
+                }
+            }
+        } else {
+            this.inner.as_mut().unwrap().as_mut().poll(cx)
+        };
+        match polled {
             Poll::Ready(()) => {
                 this.inner.take();
                 this.shared.finished.store(true, Ordering::SeqCst);
